@@ -49,8 +49,24 @@ def float_cases(seed, n):
         if a == b:
             continue
         fam = ["exact-on", "rounded-on", "decimal-collinear", "decimal-near", "decimal-collinear", "endpoint", "decimal-collinear", "beyond",
-               "fine-grid-on", "fine-grid-on"][len(out) % 10]
-        if fam == "fine-grid-on":
+               "fine-grid-on", "fine-grid-on", "axis-end", "axis-end"][len(out) % 12]
+        if fam == "axis-end":
+            # an axis-parallel segment of decimal (non-grid) floats and a point on its supporting line a few units in the last
+            # place before / behind one of its ends: collinear exactly, so only the comparison with the END decides
+            import math
+            v0, v1 = r.randrange(0, 100000) / r.choice([10, 100, 1000]), r.randrange(0, 100000) / r.choice([10, 100, 1000])
+            w = r.randrange(0, 1000) / 10
+            if v0 == v1:
+                continue
+            e = r.choice([v0, v1])
+            q = e
+            for _ in range(r.choice([1, 1, 2, 3, 50, 4000])):
+                q = math.nextafter(q, r.choice([-math.inf, math.inf]) if _ == 0 else (math.inf if q > e else -math.inf))
+            if r.random() < 0.5:
+                a, b, p = [v0, w], [v1, w], [q, w]
+            else:
+                a, b, p = [w, v0], [w, v1], [w, q]
+        elif fam == "fine-grid-on":
             # p EXACTLY on the segment although no coordinate difference is a float64: a of magnitude a few hundred on the
             # 2^-43 grid, p in [0, 1) on the 2^-(43+j) grid, b = 2^j p - (2^j - 1) a (on the 2^-43 grid again, below 2^10 x 2^j):
             # p = a + (b - a) / 2^j. A floating-point determinant of such a triple is pure rounding residue.
